@@ -284,15 +284,20 @@ class Ctx:
         e = dict(env or {})
         e["TRACE_FILE"] = tracefile
         r = self.tlc(module, cfg, env=e, workers=workers, timeout=timeout, heap=heap, count=False, **kw)
-        fails = []
-        for m in re.finditer(r'<<"FAIL", (\d+), "([^"]*)", "([^"]*)"(?:, (.*?))?>>\s*$', r["out"], re.M):
-            fails.append({"line": int(m.group(1)), "case": m.group(2), "what": m.group(3), "detail": (m.group(4) or "")[:600]})
+        fails, warns = [], []
+        for m in re.finditer(r'^"(FAIL|WARN)\|(\d+)\|([^|"]*)\|([^|"]*)\|([^"]*)"\s*$', r["out"], re.M):
+            rec = {"line": int(m.group(2)), "case": m.group(3), "what": m.group(4), "detail": m.group(5)[:600]}
+            (fails if m.group(1) == "FAIL" else warns).append(rec)
+        # every report must have been parsed: a lost FAIL line would be a silent miss
+        if len(re.findall(r'"FAIL\|', r["out"])) != len(fails) or len(re.findall(r'"WARN\|', r["out"])) != len(warns):
+            raise Infra("trace validation %s/%s: could not parse every FAIL/WARN report:\n%s" % (module, cfg, r["out"][-3000:]))
         if r["violated"] and not fails:
             raise Infra("trace validation %s/%s stopped with %s and no FAIL report:\n%s" % (module, cfg, r["violated"], r["out"][-4000:]))
-        m = re.search(r'<<"CONSUMED", (\d+)>>', r["out"])
+        m = re.search(r'"CONSUMED\|(\d+)"', r["out"])
         consumed = int(m.group(1)) if m else -1
         if consumed != n:
             raise Infra("trace validation %s/%s consumed %d of %d lines:\n%s" % (module, cfg, consumed, n, r["out"][-4000:]))
+        r["warns"] = warns
         self.events += n
         self.tlc_runs.append({"name": "trace:" + os.path.basename(tracefile), "module": module, "cfg": cfg,
                               "generated": r["generated"], "distinct": r["distinct"], "depth": r["depth"],
